@@ -98,6 +98,19 @@ class Program:
         if list(tree.find_data('macro_decl')):
             raise Unsupported('macros (expanded textually first: C13)')
         self.body = next(tree.find_data('parser_decl')).children
+        # an optional statement followed only by non-matching statements up to the end of the program (known finding: nmfu has no
+        # transition to carry those statements when the optional is skipped). append of a match consumes input, so it does not count
+        self.tail_optional = None
+        k = len(self.body)
+        def is_action(st):
+            d = str(st.data)
+            if d == 'append_stmt':
+                return str(st.children[1].data) not in ('string_const', 'string_case_const', 'binary_string_const', 'regex', 'binary_regex', 'concat_expr', 'end_expr')
+            return d in ('assign_stmt', 'delete_stmt', 'call_stmt', 'finish_stmt', 'custom_finish_stmt', 'custom_yield_stmt')
+        while k > 0 and is_action(self.body[k - 1]):
+            k -= 1
+        if 0 < k < len(self.body) and str(self.body[k - 1].data) == 'optional_stmt':
+            self.tail_optional = self.body[k - 1]
 
     def decl(self, d):
         ty = d.children[0]
@@ -146,6 +159,7 @@ class Program:
 class Ref:
     def __init__(self, prog, ctx, bs, nvar, end):
         self.p, self.ctx, self.bs, self.nvar, self.end = prog, ctx, bs, nvar, end
+        self.skipped = []
         self.pos = 0
         self.trace = []
         self.last = None
@@ -434,6 +448,7 @@ class Ref:
                 if self.pos == save[0]:
                     self.vals, self.strs, self.last = save[1], save[2], save[4]
                     del self.trace[save[3]:]
+                    self.skipped.append(st)
                     return
                 raise
             return
@@ -527,7 +542,7 @@ class Ref:
 
 
 class Result:
-    __slots__ = ('code', 'pos', 'trace', 'snap', 'ubs', 'fin', 'ended')
+    __slots__ = ('code', 'pos', 'trace', 'snap', 'ubs', 'fin', 'ended', 'skipped_tail_optional')
 
     def __init__(s, code, pos, trace, snap, ubs, fin=False, ended=False):
         s.code, s.pos, s.trace, s.snap, s.ubs, s.fin, s.ended = code, pos, trace, snap, ubs, fin, ended
@@ -550,5 +565,7 @@ def run(prog, bs, nvar, end):
             code = 'INCOMPLETE'
         except Break:
             raise Unsupported('break outside loop')
-        return Result(code, r.pos, r.trace, r.snapshot(), r.ubs, fin, r.ended)
+        res = Result(code, r.pos, r.trace, r.snapshot(), r.ubs, fin, r.ended)
+        res.skipped_tail_optional = prog.tail_optional is not None and any(x is prog.tail_optional for x in r.skipped)
+        return res
     return fn
